@@ -96,6 +96,17 @@ func (s *ViewStates) NextView() hotstuff.View {
 	return s.view
 }
 
+// AdvanceTo moves the current view forward to the given view and returns the new current view.
+// The view never moves backwards.
+func (s *ViewStates) AdvanceTo(view hotstuff.View) hotstuff.View {
+	s.mut.Lock()
+	defer s.mut.Unlock()
+	if view > s.view {
+		s.view = view
+	}
+	return s.view
+}
+
 // View returns the current view.
 func (s *ViewStates) View() hotstuff.View {
 	s.mut.RLock()
